@@ -28,7 +28,7 @@ Definition tm (s : ms) (k : Z) : R := match nthZ (m_times s) k with Some t => t 
 
 (* static well-formedness of a noisy run *)
 Definition wf (s : ms) : Prop :=
-  m_kind s = Noisy /\ 3 <= m_N s /\ Z.of_nat (length (m_times s)) = m_steps s + 1 /\
+  m_kind s = Noisy /\ 2 <= m_N s /\ Z.of_nat (length (m_times s)) = m_steps s + 1 /\
   (forall k, 0 <= k < m_steps s -> (tm s k < tm s (k + 1))%R).
 
 (* position handed to sweep_complete *)
